@@ -3,7 +3,8 @@
    every build (lib/vcheck/ostypegen.py -> OsType/Gen_ostype.v). *)
 From Coq Require Import String.
 From Avfs Require Import Base PathModel PathSpec PathCleanProofs PathIterProofs MemFS MemFile World WorldWin IsoView
-  OsTypeCfg Gen_ostype OsTypeTab OsTypeObl PathEquiv IsoIter IsoSearch IsoCalls IsoRun IsoParse VolumeProofs.
+  OsTypeCfg Gen_ostype OsTypeTab OsTypeObl PathEquiv IsoIter IsoSearch IsoCalls IsoRun IsoParse VolumeProofs
+  OrefaFS OrefaWorld OrefaWin OrefaIso.
 Open Scope list_scope.
 
 (* SetOSType as the current source writes it (guard, OsUnknown substitution, separator), BuildFeatures as
@@ -47,22 +48,31 @@ Proof.
   intros H. split; [exact (join_windows_root H)|split; [exact (join_linux_root H)|exact (parse_components H)]].
 Qed.
 
-(* MemFS half of the isomorphism (the OrefaFS half is checked behaviourally only, see design.d/C17.md).
-   A Windows-typed and a Linux-typed MemFS built by NewWithOptions with the same portable system
-   directories, driven by the administrator through the same history of namespace calls on portable
-   absolute paths (spelled C:\... on one side, /... on the other; symbolic-link targets portable, absolute or
-   relative): after the history the OS-independent views of the two trees (names, types, contents, link
-   counts, file identities, normalised link targets) are EQUAL, and every call that is not flagged succeeds
-   on both or fails on both.  Flagged = Chown / Lchown (documented: not supported on Windows) and the finding
-   RemoveAll of a path through a regular file.  Since every prefix of a history is a history, the views
-   agree after every call. *)
+(* The isomorphism, for both emulated file systems.
+   A Windows-typed and a Linux-typed MemFS (first part) / OrefaFS (second part) built by NewWithOptions with the
+   same portable system directories, driven by the administrator through the same history of namespace calls
+   on portable absolute paths (spelled C:\... on one side, /... on the other; symbolic-link targets portable,
+   absolute or relative): after the history the OS-independent views of the two trees (names, types, contents,
+   link counts, file identities, normalised link targets) are EQUAL, and every call that is not flagged succeeds
+   on both or fails on both.  Flagged = Chown / Lchown (documented: not supported on Windows) and, for MemFS only,
+   the finding RemoveAll of a path through a regular file.  Every prefix of a history is a history, so the
+   views agree after every call.
+   PARTIAL with respect to the C01 call templates: CreateTemp / MkdirTemp (random names) and writes through an
+   open handle are outside the call alphabet [pcall]; so are Sub and SetUser, which are not C01 templates. *)
 Theorem C17_iso_partial (um : N) (dirs : list (str * N)) (cws cls : list call) :
   Forall (fun x => okstr (SLASH :: fst x)) dirs -> Forall2 (pcall DRIVE_C) cws cls ->
-  let ww := init_world_dirs Windows um (dirsW dirs) in
-  let wl := init_world_dirs Linux um (dirsL dirs) in
-  agree_except (flags wl cls) (map okres (snd (wrun ww cws))) (map okres (snd (wrun wl cls)))
-  /\ iso_view (fst (wrun ww cws)) 0 = iso_view (fst (wrun wl cls)) 0.
-Proof. exact (@iso_histories um dirs cws cls). Qed.
+  (let ww := init_world_dirs Windows um (dirsW dirs) in
+   let wl := init_world_dirs Linux um (dirsL dirs) in
+   agree_except (flags wl cls) (map okres (snd (wrun ww cws))) (map okres (snd (wrun wl cls)))
+   /\ iso_view (fst (wrun ww cws)) 0 = iso_view (fst (wrun wl cls)) 0)
+  /\
+  (let ww := o_init_dirs Windows um (dirsW dirs) in
+   let wl := o_init_dirs Linux um (dirsL dirs) in
+   agree_except (map os_specific cls) (map okres (snd (orun ww cws))) (map okres (snd (orun wl cls)))
+   /\ o_iso_view (fst (orun ww cws)) = o_iso_view (fst (orun wl cls))).
+Proof.
+  intros Hd Hc. split; [exact (@iso_histories um dirs cws cls Hd Hc)|exact (@orefa_iso_histories um dirs cws cls Hd Hc)].
+Qed.
 
 (* one call from ANY pair of related worlds (same shape, same names, contents, link counts and ids, related
    link targets; the administrator acting on both): related worlds afterwards, same success / failure
@@ -75,6 +85,17 @@ Theorem C17_iso_step (ww wl : world) (cw cl : call) :
 Proof.
   intros Hw Hc. destruct (@step_sim DRIVE_C DRIVE_C_letter 0 ww wl cw cl Hw Hc) as [H1 H2].
   split; [exact H1|split; [exact H2|apply iso_view_rel, H1]].
+Qed.
+
+(* the same for OrefaFS: related states (the index of one is the index of the other with the keys respelled) *)
+Theorem C17_iso_step_orefa (ww wl : oworld) (cw cl : call) :
+  owrel DRIVE_C ww wl -> pcall DRIVE_C cw cl ->
+  owrel DRIVE_C (fst (ostep ww cw)) (fst (ostep wl cl))
+  /\ (os_specific cl = false -> okres (snd (ostep ww cw)) = okres (snd (ostep wl cl)))
+  /\ o_iso_view (fst (ostep ww cw)) = o_iso_view (fst (ostep wl cl)).
+Proof.
+  intros Hw Hc. destruct (@o_step_sim DRIVE_C DRIVE_C_letter ww wl cw cl Hw Hc) as [H1 H2].
+  split; [exact H1|split; [exact H2|apply o_iso_view_rel, H1]].
 Qed.
 
 (* volume management is a set of names: VolumeAdd / VolumeDelete / VolumeList against the abstract set
@@ -143,6 +164,13 @@ Proof.
     constructor; [apply PRemoveAll; okstr_tac|constructor]. }
   repeat split; vm_compute; reflexivity.
 Qed.
+
+(* OrefaFS: the same history (its Symlink calls are refused on both sides, OrefaFS has no symbolic links) *)
+Example C17_iso_orefa_nonvacuous :
+  map okres (snd (orun (o_init_dirs Linux 18 (dirsL ex_dirs)) ex_linux)) = [true; true; false; false; true; true; true]
+  /\ map okres (snd (orun (o_init_dirs Windows 18 (dirsW ex_dirs)) ex_windows)) = [true; true; false; false; true; false; true]
+  /\ o_iso_view (fst (orun (o_init_dirs Linux 18 (dirsL ex_dirs)) ex_linux)) <> [].
+Proof. repeat split; vm_compute; try reflexivity. discriminate. Qed.
 
 (* the finding: WriteFile /f ; RemoveAll /f/x  - fails on the Linux-typed file system (ENOTDIR), succeeds on the
    Windows-typed one (the not-a-directory and the path-not-found errors are the same Windows value) *)
